@@ -2,6 +2,7 @@ package keeper
 
 import (
 	"context"
+	"math"
 	"math/big"
 
 	"github.com/cosmos/cosmos-sdk/store/prefix"
@@ -19,6 +20,21 @@ type querier struct {
 }
 
 var _ types.QueryServer = &querier{}
+
+// maxPageLimit bounds the page size of a listing. sdkquery.FilteredPaginate
+// computes offset+limit+1 in uint64; with a limit at the top of the range the
+// sum wraps around and the walk ends at the first record the filter rejects,
+// so certificates behind it would be missing from the listing.
+const maxPageLimit = math.MaxUint32
+
+func boundedPageRequest(p *sdkquery.PageRequest) *sdkquery.PageRequest {
+	if p == nil || p.Limit <= maxPageLimit {
+		return p
+	}
+	bounded := *p
+	bounded.Limit = maxPageLimit
+	return &bounded
+}
 
 func (q querier) Certificates(c context.Context, req *types.QueryCertificatesRequest) (*types.QueryCertificatesResponse, error) {
 	if req == nil {
@@ -65,7 +81,7 @@ func (q querier) Certificates(c context.Context, req *types.QueryCertificatesReq
 			}
 		} else {
 			ownerStore := prefix.NewStore(store, certificatePrefix(owner))
-			pageRes, err = sdkquery.FilteredPaginate(ownerStore, req.Pagination, func(key []byte, value []byte, accumulate bool) (bool, error) {
+			pageRes, err = sdkquery.FilteredPaginate(ownerStore, boundedPageRequest(req.Pagination), func(key []byte, value []byte, accumulate bool) (bool, error) {
 				// prefixed store returns key without prefix
 				key = append(certificatePrefix(owner), key...)
 				item, err := q.unmarshalIterator(key, value)
@@ -84,7 +100,7 @@ func (q querier) Certificates(c context.Context, req *types.QueryCertificatesReq
 			})
 		}
 	} else {
-		pageRes, err = sdkquery.FilteredPaginate(store, req.Pagination, func(key []byte, value []byte, accumulate bool) (bool, error) {
+		pageRes, err = sdkquery.FilteredPaginate(store, boundedPageRequest(req.Pagination), func(key []byte, value []byte, accumulate bool) (bool, error) {
 			item, err := q.unmarshalIterator(key, value)
 			if err != nil {
 				return true, err
